@@ -14,7 +14,7 @@ REQUIRED = ['pda_accepts_word', 'pda_epsilon_closure']
 EXHAUSTIVE_NOTE = 'no complete sub-space: PDAs are sampled (seeded random + named families + shipped examples), each with ALL words up to the bound and several closure limits'
 RULE = ('cases are (PDA, closure limit): seeded random PDAs (<=4 states, <=2 input, <=3 stack symbols, <=8 moves of kinds push/pop/replace/no-op), named families '
         '(epsilon cycles growing/keeping/shrinking the stack, pop on empty stack, acceptance with non-empty stack, several/no accepting states), the shipped PDAs; '
-        'limits from {1,2,3,5,10,50,1000} set through GambaTools and restored; all words <=4 (5 thorough). For every call a monitor on pda_epsilon_closure decides the '
+        'limits from {1,2,3,5,10,50,1000} plus limits above the default (1050..5000) on long epsilon chains / pop loops whose closures have between 1000 and `limit` configurations, set through GambaTools and restored; all words <=4 (5 thorough). For every call a monitor on pda_epsilon_closure decides the '
         'premise "no closure exceeded the limit" by recomputing the true closure up to limit+1 configurations. '
         'distinct = (PDA, limit); non-trivial = the PDA has an epsilon move and a stack-touching move and its language up to the bound is neither empty nor everything')
 ASSUMPTIONS = [
@@ -62,7 +62,7 @@ def post_pda_accepts_word(P, w, result):
     RP = adapt.pda_ref(P)
     if not set(w) <= set(RP[1]):
         return True
-    exp = pd.accepts(RP, w)
+    exp = exact_accepts(RP, w)
     from gambatools.global_settings import GambaTools
     limit = GambaTools.pda_epsilon_closure_max_iterations
     if result is not True and result is not False:
@@ -79,6 +79,15 @@ def post_pda_accepts_word(P, w, result):
     return True
 
 
+def exact_accepts(RP, w):
+    """a PDA without stack-touching moves is an NFA: use the (much faster) finite-automaton reference,
+    otherwise the saturation oracle"""
+    if all(u is None and v is None for (_, _, u, _, v) in RP[3]):
+        R = fa.make(RP[0], RP[1], [(p, a, q) for (p, a, _, q, _) in RP[3]], RP[4], RP[5])
+        return fa.accepts_graph(R, w)
+    return pd.accepts(RP, w)
+
+
 def install(rec):
     global _REC
     _REC = rec
@@ -92,13 +101,13 @@ def check_case(rec, case):
     from gambatools.global_settings import GambaTools
     RP = case['ref']
     n = case['n']
-    words = list(fa.words_upto(RP[1], n))
-    L = {w for w in words if pd.accepts(RP, w)}
+    words = list(fa.words_upto(RP[1], n)) + list(case.get('words', ()))
+    L = {w for w in words if exact_accepts(RP, w)}
     has_eps = any(a is None for (_, a, _, _, _) in RP[3])
     has_stack = any(u is not None or v is not None for (_, _, u, _, v) in RP[3])
     rec.note_case(case, case['cls'], has_eps and has_stack and 0 < len(L) < len(words))
     # oracle cross-check (one sided): capped configuration BFS
-    for w in words[:12]:
+    for w in (words[:12] if len(RP[0]) < 100 else []):
         b = pd.accepts_capped(RP, w, 6, 20000)
         if b is True:
             selfcheck(rec, w in L, (RP, w))
@@ -131,6 +140,18 @@ def gen_cases(rec, rng, tier):
         for j, lim in enumerate(limits):
             if (i + j) % 4 == rec.shard % 4:
                 yield {'cls': cls, 'ref': RP, 'n': n if lim < 1000 else 3, 'limit': lim, 'eps': ('', '_', 'ε')[(i + j) % 3]}
+    # limits ABOVE the default, with closures whose size lies between the default and the limit
+    # ("whatever value that limit is set to"): long chains of epsilon moves, optionally pushing
+    if rec.shard % 4 == 2:
+        for (length, lim) in ((1100, 1200), (1100, 1050), (1500, 5000), (1200, 1000), (999, 1000)):
+            Q = ['c%04d' % i for i in range(length + 1)]
+            T = [(Q[i], None, None, Q[i + 1], None) for i in range(length)] + [(Q[length], 'a', None, Q[length], None)]
+            yield {'cls': 'long_epsilon_chain', 'ref': pd.make(Q, 'a', '', T, Q[0], [Q[length]]), 'n': 1, 'limit': lim, 'eps': ''}
+        for (length, lim) in ((1100, 1300), (1050, 2000)):
+            Q = ['q0', 'q1', 'q2']
+            # push X `length` times is impossible without a counter; instead: pop-all loop after reading a's
+            T = [('q0', 'a', None, 'q0', 'X'), ('q0', 'b', None, 'q1', None), ('q1', None, 'X', 'q1', None), ('q1', None, None, 'q2', None)]
+            yield {'cls': 'long_pop_loop', 'ref': pd.make(Q, 'ab', 'X', T, 'q0', ['q2']), 'n': 0, 'limit': lim, 'eps': '', 'words': ['a' * length + 'b']}
     if rec.shard == 1:
         for (name, RP, eps) in pdag.shipped_pdas(env.REPO):
             yield {'cls': 'shipped_' + name, 'ref': RP, 'n': 4, 'limit': 1000, 'eps': eps}
